@@ -478,11 +478,20 @@ func init() {
 					return r.Key, false
 				}
 				if r.Sig != "" {
+					// the harness is deterministic; a verdict that varies between runs of one history means the code
+					// under test is not (e.g. it ranges over a map): still a violation as long as it shows up again
+					again := 0
 					for i := 0; i < 4; i++ {
-						if r2 := c11Replay(history(h)); r2.Sig != r.Sig {
-							w.Notes = append(w.Notes, "HARNESS ERROR: C11 violation did not reproduce")
-							return "", false
+						if r2 := c11Replay(history(h)); r2.Sig != "" {
+							again++
+							if r2.Sig != r.Sig {
+								r.Detail = "(verdict varies between runs of the same history: " + r2.Sig + ") " + r.Detail
+							}
 						}
+					}
+					if again == 0 {
+						w.Notes = append(w.Notes, "UNREPRODUCED: C11 violation did not reproduce")
+						return "", false
 					}
 					w.Violate(r.Sig, r.Detail+"\nhistory: "+fmt.Sprint(history(h)), map[string]any{"thorough": w.Thorough(), "history": h})
 					return r.Key, false
